@@ -20,8 +20,7 @@ UNIT = dict(
         "SlidingLogState::try_acquire": dict(rules=[
             ("sub", "R11-refpat", r"Some\(&timestamp\) = self\.request_log\.front\(\)", "Some(timestamp) = vx_copied(self.request_log.front())", 1),
             ("sub", "R11-refpat", r"Some\(&oldest\) = self\.request_log\.front\(\)", "Some(oldest) = vx_copied(self.request_log.front())", 1),
-            ("sub", "R10-checked-add", r"oldest\s*\.checked_add\(self\.window_duration\)\s*\.map\(\|expiry\| expiry\.saturating_duration_since\(now\)\)\s*\.unwrap_or\(Duration::ZERO\)",
-             "(match oldest.checked_add(self.window_duration) { Some(expiry) => expiry.saturating_duration_since(now), None => Duration::ZERO })", 1),
+            ("R10", -1),   # E.map(|p| B).unwrap_or(D) -> match (any receiver, balanced bodies)
             ("inject", r"if self\.request_log\.len\(\) < self\.limit_for_period", "before", """proof {
                 let w = self.window_duration.nanos as nat; let n = gh.adm.len() as int; let k0 = old(self).request_log@.len() as int; let kept = self.request_log@; let d = k0 - kept.len();
                 lemma_live_suffix(old(self).request_log@, now.t as nat, w);
